@@ -190,11 +190,26 @@ HARNESS = '''
 '''
 
 
+_CB_FN = re.compile(r'(pub fn (cb_\w+)\((_?lex): &mut L\)[^{;]*\{)')
+
+
+def instrument_callbacks(prelude: str) -> str:
+    """every corpus callback logs its invocation (name, span at entry) when the crate is built with `--cfg cb_log`
+    (native replay of C13 failures only; with the cfg off -- all MIR builds -- the statement does not exist)"""
+    return _CB_FN.sub(lambda m: f'{m.group(1)} #[cfg(cb_log)] crate::cb_log("{m.group(2)}", {m.group(3)}.span());', prelude)
+
+
+CB_LOG_ITEM = '''
+#[cfg(cb_log)]
+pub fn cb_log(name: &str, sp: core::ops::Range<usize>) { println!("CB {} {} {}", name, sp.start, sp.end); }
+'''
+
+
 def render_module(d: Def) -> str:
     extras_default = ''
     return (f'pub mod {d.id} {{\n    #![allow(unused_imports, dead_code)]\n    use logos::{{Lexer, Logos, Skip, Filter, FilterResult}};\n'
             f'    pub type SRC = {d.src_ty};\n'
-            f'{indent(d.prelude)}\n{indent(render_enum(d))}\n'
+            f'{indent(instrument_callbacks(d.prelude))}\n{indent(render_enum(d))}\n'
             + HARNESS.replace('TOK', "Tok<'static>" if d.has_lifetime else 'Tok') + f'{extras_default}}}\n')
 
 
@@ -203,7 +218,7 @@ def indent(s, n=4):
 
 
 def render_lib(defs: List[Def], extra='') -> str:
-    return '#![allow(dead_code, unused_imports, clippy::all)]\n' + '\n'.join(render_module(d) for d in defs) + extra
+    return '#![allow(dead_code, unused_imports, unexpected_cfgs, clippy::all)]\n' + CB_LOG_ITEM + '\n'.join(render_module(d) for d in defs) + extra
 
 
 def render_replay_main(defs: List[Def]) -> str:
